@@ -183,6 +183,8 @@ Definition uint_from_le_slice (nbytes : N) (bs : bytes) : outcome N :=
   if le_val bs <? 256 ^ nbytes then Ok (le_val bs) else Panic.
 Definition vec_try_from_iter {A} (l : list A) : outcome (list A) := Ok l.
 Definition smallvec_try_from_iter {A} (l : list A) : outcome (list A) := Ok l.
+(** [SmallVec::from_iter]: the items in order (the inline / spilled representation is not a value matter) *)
+Definition smallvec_from_iter {A} (l : list A) : list A := l.
 
 (** [BTreeSet::from_iter] under the item type's [Ord]: the elements in ascending order, a later element
     that compares equal replaces the earlier one (std: "if the set did have an equal element present,
